@@ -16,7 +16,7 @@ CONFIG = {
             "FAIL:panic:<message>:<frame>, not the end of the run): on a fresh real in-process GRPCClient/GRPCServer pair per round, 6 goroutines per broker on BOTH brokers "
             "(host streamer gRPCBrokerClientImpl, plugin streamer gRPCBrokerServer) call Accept(NextId()) in a loop (every Accept advertises its listener through streamer.Send) "
             "and after a seeded 0.2-2.7 ms four goroutines Close both brokers, so that Close lands while Sends are in flight (the note reports how many were); quick: 120 rounds "
-            "without multiplexing for the first seed; thorough: 1500 rounds per seed plus 6 multiplexed rounds (Accept+Dial pairs: knock / knock-ack Sends) for the first; "
+            "without multiplexing for the first seed; thorough: 500 rounds per seed plus 3 multiplexed rounds (Accept+Dial pairs: knock / knock-ack Sends) for the first; "
             "the model row is the reply-channel protocol run at the extracted facts; "
             "every data-race report whose access stacks contain go-plugin frames (outside test/ and examples/) is one !C20.race row with signature "
             "race:<Type>.<field>:<M1>/<M2>; evaluations = result rows; non-trivial = a row that is not a plain success",
